@@ -17,6 +17,8 @@
 (*   hist  : the log is a legal Session behaviour, and for every call           *)
 (*           Obs = Fresh(doc, kind) (taken from the one-call process with the   *)
 (*           same hash seed) and globals' = globals                             *)
+(*   a call that did not return within its CPU / memory budget is recorded with *)
+(*   verdict "no_termination" (the process stops there): clause no_termination  *)
 EXTENDS SessionDef, Json, IOUtils
 VARIABLES phase, i, k, glob, rej
 vars == <<phase, i, k, glob, rej>>
